@@ -202,7 +202,8 @@ func (d *Dialer[T]) Dial(ctx context.Context, network, addr string, tc *tls.Conf
 		}
 	}
 
-	needECH := tc.EncryptedClientHelloConfigList == nil
+	// A list of zero bytes holds no config: it is no list.
+	needECH := len(tc.EncryptedClientHelloConfigList) == 0
 	if needECH && d.PublicName != "" {
 		id := make([]byte, 1)
 		if _, err := io.ReadFull(rand.Reader, id); err != nil {
@@ -246,10 +247,10 @@ func (d *Dialer[T]) Dial(ctx context.Context, network, addr string, tc *tls.Conf
 				if tc.ServerName == "" {
 					tc.ServerName = target.host
 				}
-				if needECH && target.resolved.ECH != nil {
+				if needECH && len(target.resolved.ECH) > 0 {
 					tc.EncryptedClientHelloConfigList = target.resolved.ECH
 				}
-				if d.RequireECH && tc.EncryptedClientHelloConfigList == nil {
+				if d.RequireECH && len(tc.EncryptedClientHelloConfigList) == 0 {
 					sendErr(fmt.Errorf("%s: unable to get ECH config list", target.host))
 					continue
 				}
